@@ -80,7 +80,7 @@ def facets(q: bool) -> List[Tuple[str, dict, int]]:
                                                Mentions=NOMENT, Ks=[64], Thrs=Def("{-20}"), TierSeqs=Def("{<<3>>}"), TopMs=[3], RecentDays=[30],
                                                Weights=Def("(0..4) \\X (0..4) \\X {%d}" % w3), Scopes=[0], ResCaps=[32], SliceCaps=[NOCAP]), 1))
     # ---- samples of the documented scope -------------------------------------------------------------
-    se, sc, j = (300, 10, 2) if q else (1500, 10, 16)
+    se, sc, j = (300, 10, 2) if q else (1200, 10, 16)
     out.append(("s_full", dict(F, SampleEps=se, SampleCfg=sc), j))
     out.append(("s_full34", dict(F, Ns=[3, 4], SampleEps=se // 3 if q else se // 2, SampleCfg=sc), max(1, j // 4)))
     # tier walk, rich in hits: one owner, permissive thresholds, all tiers/k/ages/clusters
@@ -607,6 +607,7 @@ def check(run) -> None:
             jobs.append((f"{name}_{j}" if nj > 1 else name, consts, run.seed * 1000 + len(jobs) + 1))
     wave = 16
     emitted_total = 0
+    why: Dict[str, int] = {"cluster_centroid_tie_at_top_m_cut": 0, "combined_score_tie_nonexact_recency": 0}
     for w0 in range(0, len(jobs), wave):
         results = _run_jobs(run, jobs[w0:w0 + wave])
         cases = []
@@ -627,6 +628,8 @@ def check(run) -> None:
                 run.ok(k, v)
             if guarded:
                 run.guarded_out += 1
+                why["cluster_centroid_tie_at_top_m_cut"] += int(bool(c.get("gcluster")))
+                why["combined_score_tie_nonexact_recency"] += int(bool(c.get("grank")))
             elif not fails:
                 run.ok("Retrieval.conforms")
             for clause, kind, msg in fails:
@@ -643,6 +646,8 @@ def check(run) -> None:
                 run.fail(clause, _sig(clause, kind), c, msg, replay={"rerank": c})
         del cases, outs, results
     run.exhaustive = True
+    run.extra["guarded_out_reasons"] = why
+    run.extra["cases_enumerated"] = emitted_total
     # ---- C->S random memories ------------------------------------------------------------------------
     nrand = 250 if q else 6000
     args = [(run.seed, i) for i in range(nrand)]
